@@ -33,6 +33,11 @@ Enumeration
   2-D  fine triangulations and other tolerances (the row / column sums do not depend on `tol`): Delaunay triangulations with 30 /
        70 interior nodes (60+ / 140+ cells), match_2d with tol = 1e-4 / 1e-6, every pair having an exact overlap of positive area
        below tol (sweep_2d_fine).  Both families hold on the unchanged tree (quick and thorough, seed 0).
+  1-D  cells numbered in ARBITRARY order (a tessellation is a set of cells; the other 1-D families number the cells consecutively
+       along the line): the same pairs (thorough: every 2nd) on the 4 lines and the 2 far segments, columns of l1 / l2 permuted
+       ('interleaved', seeded 'shuffled', or 'consecutive' for one of the two), and match_1d 'averaged' / 'integrated' on 1-D
+       grids with permuted cell numbering (every 2nd / thorough 8th pair); exact measure of cell c = interval perm[c]
+       (sweep_1d_numbering).  The 2-D pools already number their cells without geometric order (Delaunay simplices).
 
 Unchanged tree (installed shapely 2.1.2 / GEOS 3.13.1).  line_tessellation, match_1d: hold on every case.  Violations, kept
 strict and reported to the lead:
@@ -72,6 +77,11 @@ Seeded changes caught only by the two later families (quick tier):
   S3  match_2d: the `weights > tol` mask applied before the 'averaged' / 'integrated' scaling
         -> "match_2d: 'averaged' rows sum to one" / "'integrated' columns sum to one", signature "plane z=0; cell pairs in general
            position deviate" (fine triangulations with tol 1e-4 / 1e-6)
+Seeded change caught only by the family with arbitrary cell numbering (quick tier):
+  S2  line_tessellation: inner loop over the second tessellation left at the first non-intersecting segment after a hit (assumes
+      that the segments meeting a given segment are numbered consecutively)
+        -> "line_tessellation: overlaps of a first-/second-tessellation cell sum to its measure", "match_1d: 'averaged' rows /
+           'integrated' columns sum to one", signatures "<line>; cells numbered in arbitrary order"
 """
 from __future__ import annotations
 
@@ -89,7 +99,8 @@ META = {
             "of a 7-point (thorough 9-point) lattice in 1-D (exhaustive) and seeded pairs of structured/perturbed/Delaunay triangulations of "
             "the unit square in 2-D; in addition every 2nd (thorough 3rd) 1-D pair on two segments ~1e6 cell lengths away from the origin "
             "(line_tessellation, match_1d) and match_2d on fine Delaunay triangulations (60+/140+ cells) with tol 1e-4 / 1e-6 and genuine "
-            "overlaps below tol. Not covered: segments / squares much smaller than the absolute tolerance 1e-8 of segments_3d, fine "
+            "overlaps below tol; the 1-D pairs also with the cells of each tessellation numbered in arbitrary (interleaved / seeded shuffled) "
+            "order along the line (permuted columns of l1 / l2, match_1d on grids with permuted cell numbering) on all 6 lines. Not covered: segments / squares much smaller than the absolute tolerance 1e-8 of segments_3d, fine "
             "triangulations in tilted planes. The polygon clipping itself is shapely's (trusted library); no deduction.",
     "note": "cell measures exact (fractions.Fraction); sums compared at 1e-12 relative to the domain measure; shapely/GEOS trusted",
 }
@@ -306,6 +317,113 @@ def sweep_1d(rep, pp, quick):
                         continue
                     for ob, detail in check_matrix(M, scaling, "match_1d"):
                         rep.violation(ob, f"1-D grids {ln}", inputs=inp, detail=f"new interior nodes {inp['new']}, old {inp['old']}: {detail}")
+
+
+NUMBERINGS = ("interleaved", "shuffled", "consecutive")
+
+
+def cell_perm(n, variant, shuffled):
+    """numbering of the n cells of a 1-D tessellation: entry c = position along the line (0 = first) of the cell numbered c"""
+    if variant == "interleaved":  # even positions in increasing order, then the odd positions in decreasing order
+        return list(range(0, n, 2)) + list(range(1, n, 2))[::-1]
+    if variant == "shuffled":
+        return list(shuffled)
+    return list(range(n))
+
+
+def _monotone(perm):
+    return list(perm) == sorted(perm) or list(perm) == sorted(perm, reverse=True)
+
+
+def permuted_grid(pp, ts, line, perm):
+    """1-D grid with nodes base + t*direction (t in ts, in this order) whose cell c is the perm[c]-th interval along the line"""
+    import numpy as np
+
+    P, _L = tess_1d(ts, line, 0)
+    g0 = pp.TensorGrid(np.arange(len(ts), dtype=float))
+    g = pp.Grid(1, P, g0.face_nodes, g0.cell_faces.tocsc()[:, list(perm)], "line grid, permuted cell numbering")
+    g.compute_geometry()
+    return g
+
+
+def sweep_1d_numbering(rep, pp, quick):
+    """The statement speaks of tessellations, i.e. SETS of cells: the order in which the cells are numbered is arbitrary (a 1-D grid
+    assembled from several pieces, a mortar grid after refinement / replacement, cells of a .msh file).  The other 1-D families
+    scramble the node columns and the orientation of the segments, but number the cells consecutively along the line.  Here the
+    columns of `l1` / `l2` (and the cells of the grids given to match_1d) are permuted; the exact measure of cell c is that of the
+    interval perm[c]."""
+    import random
+
+    N = 6 if quick else 8
+    lattice = [Fraction(k, N) for k in range(N + 1)]
+    interior = lattice[1:-1]
+    subsets = [tuple(s) for r in range(len(interior) + 1) for s in itertools.combinations(interior, r)]
+    rnd = random.Random(f"C33 cell numbering {rep.seed}")  # own stream: the seeded cases of the other families do not change
+    shuffled = {S: rnd.sample(range(len(S) + 1), len(S) + 1) for S in subsets}
+    names = list(LINES) + list(FAR_LINES)
+    step_lt = 1 if quick else 2
+    step_m = 2 if quick else 8
+    with rep.sweep(
+        "line_tessellation / match_1d with cells numbered in arbitrary order",
+        rule=f"ordered pairs of node subsets of the lattice k/{N} (line_tessellation: every {'pair' if quick else '2nd pair'}; match_1d 'averaged' and "
+             f"'integrated': every {step_m}{'nd' if step_m == 2 else 'th'} pair), on the 4 lines and the 2 far segments (cycled); the cells of each "
+             "tessellation numbered 'interleaved' (even positions ascending, then odd positions descending), 'shuffled' (seeded "
+             "permutation per node subset) or 'consecutive' (never both): columns of l1 / l2 permuted (node columns scrambled and segment "
+             "orientation alternating as before), match_1d on 1-D grids whose cell_faces columns are permuted; non-trivial = node sets "
+             "differ and some numbering is not monotone along the line; distinct by (line, subset 1, subset 2)",
+        bound=f"{len(subsets)} x {len(subsets)} pairs",
+        exhaustive=False,
+    ) as sw:
+        grids = {}
+
+        def grid(S, ln, variant):
+            if (S, ln, variant) not in grids:
+                grids[(S, ln, variant)] = permuted_grid(pp, [lattice[0], *S, lattice[-1]], ln, cell_perm(len(S) + 1, variant, shuffled[S]))
+            return grids[(S, ln, variant)]
+
+        for a, S1 in enumerate(subsets):
+            for b, S2 in enumerate(subsets):
+                idx = a * len(subsets) + b
+                if idx % step_lt:
+                    continue
+                v1, v2 = NUMBERINGS[idx % 3], NUMBERINGS[(idx // 3) % 3]
+                if v1 == v2 == "consecutive":
+                    v2 = "shuffled"
+                ln = names[(idx // 9) % len(names)]
+                t1, t2 = [lattice[0], *S1, lattice[-1]], [lattice[0], *S2, lattice[-1]]
+                perm1, perm2 = cell_perm(len(t1) - 1, v1, shuffled[S1]), cell_perm(len(t2) - 1, v2, shuffled[S2])
+                Lf = float(_dir_len2((LINES[ln] if ln in LINES else FAR_LINES[ln])[1])) ** 0.5
+                P1, L1 = tess_1d(t1, ln, a)
+                P2, Lb = tess_1d(t2, ln, b + 1)
+                sig = f"{ln}; cells numbered in arbitrary order"
+                sw.case(key=(ln, S1, S2), nontrivial=(S1 != S2 and not (_monotone(perm1) and _monotone(perm2))),
+                        sample={"line": ln, "nodes_1": [str(t) for t in t1], "nodes_2": [str(t) for t in t2], "cell_numbering_1": perm1, "cell_numbering_2": perm2})
+                inp = {"fn": "line_tessellation", "line": ln, "t1": [str(t) for t in t1], "t2": [str(t) for t in t2], "a": a, "b": b,
+                       "perm1": perm1, "perm2": perm2}
+                try:
+                    ov = pp.intersections.line_tessellation(P1, P2, L1[:, perm1], Lb[:, perm2])
+                except Exception as ex:  # noqa: BLE001
+                    rep.violation("line_tessellation: does not raise on two tessellations of one segment", sig, inputs=inp, detail=f"{type(ex).__name__}: {ex}")
+                    ov = None
+                if ov is not None:
+                    m1 = [t1[k + 1] - t1[k] for k in perm1]
+                    m2 = [t2[k + 1] - t2[k] for k in perm2]
+                    for clause, detail in check_overlaps([(i, j, v / Lf) for i, j, v in ov], m1, m2, 1)[:3]:
+                        rep.violation(f"line_tessellation: {CL[clause]}", sig, inputs=inp,
+                                      detail=f"nodes {inp['t1']} vs {inp['t2']}, cell c = interval number {perm1}[c] / {perm2}[c] along the line: {detail}")
+                if idx % step_m:
+                    continue
+                for scaling in ("averaged", "integrated"):
+                    inp = {"fn": "match_1d", "line": ln, "new": [str(t) for t in S1], "old": [str(t) for t in S2], "N": N, "scaling": scaling,
+                           "perm_new": perm1, "perm_old": perm2}
+                    try:
+                        M = pp.match_grids.match_1d(grid(S1, ln, v1), grid(S2, ln, v2), tol=1e-8, scaling=scaling)
+                    except Exception as ex:  # noqa: BLE001
+                        rep.violation("match_1d: does not raise on two grids of one segment", sig, inputs=inp, detail=f"{type(ex).__name__}: {ex}")
+                        continue
+                    for ob, detail in check_matrix(M, scaling, "match_1d"):
+                        rep.violation(ob, f"1-D grids, {sig}", inputs=inp,
+                                      detail=f"new interior nodes {inp['new']} (cell numbering {perm1}), old {inp['old']} (cell numbering {perm2}): {detail}")
 
 
 CL = {
@@ -697,6 +815,7 @@ def run(rep):
     with warnings.catch_warnings():
         warnings.simplefilter("ignore")
         sweep_1d(rep, pp, quick)
+        sweep_1d_numbering(rep, pp, quick)
         sweep_2d(rep, pp, quick)
         sweep_2d_fine(rep, pp, quick)
 
@@ -710,14 +829,15 @@ def replay(data):
         ln = inp["line"]
         P1, L1 = tess_1d(t1, ln, inp["a"])
         P2, L2 = tess_1d(t2, ln, inp["b"] + 1)
+        perm1 = [int(c) for c in inp.get("perm1", range(len(t1) - 1))]  # cell numbering (absent: consecutive along the line)
+        perm2 = [int(c) for c in inp.get("perm2", range(len(t2) - 1))]
         Lf = float(_dir_len2((LINES[ln] if ln in LINES else FAR_LINES[ln])[1])) ** 0.5
         try:
-            ov = pp.intersections.line_tessellation(P1, P2, L1, L2)
+            ov = pp.intersections.line_tessellation(P1, P2, L1[:, perm1], L2[:, perm2])
         except Exception as ex:  # noqa: BLE001
             print("replay: raises", type(ex).__name__, ex)
             return True
-        fails = check_overlaps([(i, j, v / Lf) for i, j, v in ov], [t1[k + 1] - t1[k] for k in range(len(t1) - 1)],
-                               [t2[k + 1] - t2[k] for k in range(len(t2) - 1)], 1)
+        fails = check_overlaps([(i, j, v / Lf) for i, j, v in ov], [t1[k + 1] - t1[k] for k in perm1], [t2[k + 1] - t2[k] for k in perm2], 1)
         for f in fails:
             print("replay:", f)
         return bool(fails)
@@ -726,6 +846,9 @@ def replay(data):
 
         gs = []
         for key in ("new", "old"):
+            if "perm_" + key in inp:
+                gs.append(permuted_grid(pp, [Fraction(0)] + [Fraction(x) for x in inp[key]] + [Fraction(1)], inp["line"], [int(c) for c in inp["perm_" + key]]))
+                continue
             if inp.get("line") in FAR_LINES:
                 P, _L = tess_1d([Fraction(0)] + [Fraction(x) for x in inp[key]] + [Fraction(1)], inp["line"], 0)
                 g = pp.TensorGrid(np.arange(P.shape[1], dtype=float))
